@@ -9,6 +9,51 @@ Lemma Forall_concat_const {A} (P : A -> Prop) (l : list A) {B} (ns : list B) :
   Forall P l -> Forall P (concat (map (fun _ => l) ns)).
 Proof. intros H. apply Forall_concat. apply Forall_map_intro. intros; exact H. Qed.
 
+Lemma safe_all_m d : forall items, Forall wf_thunk items -> safe wf_value (all_m items d).
+Proof.
+  induction items as [|it r IH]; intros Hi; simpl; [apply safe_ret; constructor|]. inversion Hi; subst.
+  eapply safe_bind; [apply safe_forceT; assumption|]. intros v Hv. destruct v; try apply safe_kind.
+  destruct b; [apply IH; assumption | apply safe_ret; constructor].
+Qed.
+Lemma safe_any_m d : forall items, Forall wf_thunk items -> safe wf_value (any_m items d).
+Proof.
+  induction items as [|it r IH]; intros Hi; simpl; [apply safe_ret; constructor|]. inversion Hi; subst.
+  eapply safe_bind; [apply safe_forceT; assumption|]. intros v Hv. destruct v; try apply safe_kind.
+  destruct b; [apply safe_ret; constructor | apply IH; assumption].
+Qed.
+Lemma safe_sum_m d : forall items acc, Forall wf_thunk items -> safe wf_value (sum_m items acc d).
+Proof.
+  induction items as [|it r IH]; intros acc Hi; simpl; [apply safe_check_num|]. inversion Hi; subst.
+  eapply safe_bind; [apply safe_forceT; assumption|]. intros v Hv. destruct v; try apply safe_kind. apply IH; assumption.
+Qed.
+Lemma safe_flatten_m d : forall items acc, Forall wf_thunk items -> Forall wf_thunk acc -> safe wf_value (flatten_m items acc d).
+Proof.
+  induction items as [|it r IH]; intros acc Hi Ha; simpl; [apply safe_ret; constructor; exact Ha|]. inversion Hi; subst.
+  eapply safe_bind; [apply safe_forceT; assumption|]. intros v Hv. destruct v; try apply safe_kind. inversion Hv; subst.
+  apply IH; [assumption | apply Forall_app_intro; assumption].
+Qed.
+Lemma safe_contains_m x d : wf_value x -> forall items, Forall wf_thunk items -> safe wf_value (contains_m x items d).
+Proof.
+  intros Hx. induction items as [|it r IH]; intros Hi; simpl; [apply safe_ret; constructor|]. inversion Hi; subst.
+  eapply safe_bind; [apply safe_forceT; assumption|]. intros vi Hvi.
+  eapply safe_bind; [apply safe_equals; assumption|]. intros e _. destruct e; [apply safe_ret; constructor | apply IH; assumption].
+Qed.
+Lemma safe_count_m x d : wf_value x -> forall items n, Forall wf_thunk items -> safe wf_value (count_m x items n d).
+Proof.
+  intros Hx. induction items as [|it r IH]; intros n Hi; simpl; [apply safe_ret; constructor|]. inversion Hi; subst.
+  eapply safe_bind; [apply safe_forceT; assumption|]. intros vi Hvi.
+  eapply safe_bind; [apply safe_equals; assumption|]. intros e _. apply IH; assumption.
+Qed.
+Lemma char_thunks_wf s : Forall wf_thunk (char_thunks s).
+Proof. unfold char_thunks. apply Forall_map_intro. intros. repeat constructor. Qed.
+Lemma combine_in_r {A B} : forall (l1 : list A) (l2 : list B) p, In p (combine l1 l2) -> In (snd p) l2.
+Proof.
+  induction l1 as [|a r IH]; intros l2 p H; simpl in H; [destruct H|]. destruct l2 as [|b r2]; [destruct H|].
+  destruct H as [<- | H]; [left; reflexivity | right; apply IH; exact H].
+Qed.
+#[export] Hint Resolve safe_all_m safe_any_m safe_sum_m safe_flatten_m safe_contains_m safe_count_m char_thunks_wf : safe.
+#[export] Hint Resolve char_thunks_wf : wf.
+
 Ltac down := repeat match goal with
   | |- safe _ (match ?x with _ => _ end) => first [is_var x; destruct x | destruct x eqn:?]
   | |- safe _ (if ?b then _ else _) => destruct b eqn:?
@@ -16,6 +61,11 @@ Ltac down := repeat match goal with
 Ltac fin :=
   try solve [safe_tac];
   try solve [wf_inv; apply safe_foldr_m; auto; apply Forall_rev; assumption];
+  try solve [wf_inv; apply safe_ret; constructor; first [ apply char_thunks_wf | apply Forall_rev; assumption ]];
+  try solve [wf_inv; apply safe_ret; constructor; apply Forall_map_intro; intros p Hp; apply combine_in_r in Hp;
+             constructor; [assumption|]; constructor; [repeat constructor|]; constructor; [|constructor];
+             first [ match goal with H : Forall _ ?l |- _ => rewrite Forall_forall in H; apply H; exact Hp end
+                   | match goal with Hq : In _ (char_thunks ?s) |- _ => pose proof (char_thunks_wf s) as Hc; rewrite Forall_forall in Hc; apply Hc; exact Hq end ]];
   try solve [wf_inv; apply safe_ret; constructor;
              first [ apply Forall_concat_const; assumption
                    | apply Forall_map_intro; intros; repeat constructor; auto;
@@ -307,10 +357,24 @@ Proof.
   - simpl. apply safe_step_fn; [exact Ht | apply IH].
 Qed.
 
+Lemma closed_func_simple ps body :
+  (forall vs', incl (map fst ps) vs' -> Forall (fun p => closed_opt vs' true (snd p)) ps /\ closed vs' true body) ->
+  closed [] true (CFunc ps body).
+Proof. intros H. constructor. intros vs' _ Hp. apply H. exact Hp. Qed.
+
+Ltac in_params Hp := apply Hp; simpl; tauto.
+
 Lemma std_layer_wf : wf_layer std_layer.
 Proof.
-  unfold std_layer. constructor; [constructor|]. apply Forall_map_intro. intros r _. simpl.
-  constructor; [constructor | constructor | constructor].
+  unfold std_layer. constructor; [constructor|]. apply Forall_app_intro.
+  - apply Forall_map_intro. intros r _. simpl. constructor; [constructor | constructor | constructor].
+  - unfold std_defs, val_comp, kv_comp, bcall, v_, p_. simpl.
+    repeat (constructor; [simpl; constructor; [constructor | constructor |]; simpl; apply closed_func_simple; intros vs' Hp | ]).
+    all: try solve [constructor].
+    all: split; [repeat constructor|].
+    all: try solve [repeat (first [ apply CL_Var; in_params Hp | constructor ])].
+    all: try solve [econstructor; [ constructor; [ repeat (first [ apply CL_Var; in_params Hp | constructor ]) | constructor ]
+                                  | repeat (first [ apply CL_Var; simpl; first [left; reflexivity | right; in_params Hp] | constructor ]) ]].
 Qed.
 
 Lemma init_env_wf : wf_env init_env.
